@@ -196,6 +196,25 @@ func genC13(e *emitter, tier string) {
 		e.emit(validateCase("single", g, nil))                               // missing
 		e.emit(validateCase("single", g, []SupJ{{"y", []int{2}}}))           // wrong name only
 	}
+	// the extents of a satisfying input set REDISTRIBUTED among the inputs (same extents in the same order, cut
+	// at other places: ranks differ per input, the flattened list of extents does not); each twice, so that one
+	// of the two comes after a completed Run with the satisfying set
+	for _, pr := range []struct {
+		a, b     []any
+		supplied [][2][]int
+	}{
+		{[]any{2, 3}, []any{4}, [][2][]int{{{2}, {3, 4}}, {{2, 3, 4}, {}}, {{}, {2, 3, 4}}, {{2, 3}, {4}}, {{2, 3}, {2, 2}}}},
+		{[]any{2, "N"}, []any{2}, [][2][]int{{{2}, {2, 2}}, {{2, 2, 2}, {}}, {{2, 2}, {2}}, {{2, 5}, {2}}}},
+		{[]any{3}, []any{1, 2}, [][2][]int{{{3, 1}, {2}}, {{3, 1, 2}, {}}, {{}, {3, 1, 2}}, {{3}, {1, 2}}}},
+		{[]any{1, 1}, []any{1}, [][2][]int{{{1}, {1, 1}}, {{1, 1, 1}, {}}, {{1, 1}, {1}}}},
+	} {
+		g := &GraphJ{Inputs: []VInfoJ{{Name: "a", Dt: "f32", Dims: pr.a}, {Name: "b", Dt: "f32", Dims: pr.b}}}
+		for _, sp := range pr.supplied {
+			for rep := 0; rep < 2; rep++ {
+				e.emit(validateCase("extents-redistributed", g, []SupJ{{"a", sp[0]}, {"b", sp[1]}}))
+			}
+		}
+	}
 	// an input without usable shape information (no type, a non-tensor type, no shape, no dimensions) is
 	// not checked - and must not stop the inputs declared after it from being checked
 	for _, how := range []string{"", "tensor", "shape", "dims"} {
